@@ -132,11 +132,36 @@ func vfcRunOwn(t *testing.T, tr *vfTrace, h int, seed int64, steps int) *vfcClie
 	cfg := vfcCfg{TTL: []string{"min", "def"}[(h/4)%2], Squash: squash, Profile: "own"}
 	c := vfcNewClient(t, tr, cfg, h, seed)
 	names := 0
+	{
+		// directed: root gives a file and a directory away; the new owner (a member of further
+		// groups) then tries chgrp / chown through the same handles
+		U, G := vfcUIDs[1+r.Intn(len(vfcUIDs)-1)], vfcGIDs[1+r.Intn(len(vfcGIDs)-1)]
+		c.cred = vfRoot
+		c.create(c.hs[0], "given", 0, vfSattr{Mode: u32p(0644)}, "")
+		c.mkdir(c.hs[0], "givend", vfSattr{Mode: u32p(0755)})
+		for _, nm := range []string{"given", "givend"} {
+			hh := c.handleOf(nm)
+			c.setattr(hh, vfSattr{UID: u32p(U), GID: u32p(G)})
+			c.cred = vfCred{Flavor: AUTH_SYS, UID: U, GID: G, Aux: []uint32{4242, 100}, IP: "127.0.0.1", Port: 1000}
+			c.setattr(hh, vfSattr{GID: u32p(4242)})
+			c.setattr(hh, vfSattr{UID: u32p(U), GID: u32p(100)})
+			c.setattr(hh, vfSattr{UID: u32p(7), GID: u32p(G)})
+			c.getattr(hh)
+			c.cred = vfRoot
+		}
+	}
 	for s := 0; s < steps; s++ {
 		c.setCred(vfcUIDs[r.Intn(len(vfcUIDs))], vfcGIDs[r.Intn(len(vfcGIDs))])
+		if r.Intn(2) == 0 {
+			// auxiliary groups: being a member of a group does not make it the caller's effective gid
+			c.cred.Aux = []uint32{vfcGIDs[r.Intn(len(vfcGIDs))], 4242}
+		}
 		d := c.pickKind(r, "D")
 		names++
 		name := fmt.Sprintf("n%d", names)
+		if names > 4 && r.Intn(4) == 0 {
+			name = fmt.Sprintf("n%d", 1+r.Intn(names-1)) // a name that may already exist
+		}
 		switch x := r.Intn(100); {
 		case x < 22:
 			c.create(d, name, uint32(r.Intn(3)), c.ownSattr(r), "v1")
@@ -150,6 +175,10 @@ func vfcRunOwn(t *testing.T, tr *vfTrace, h int, seed int64, steps int) *vfcClie
 			// the handle for the unset one, which is outside this property)
 			if (s.UID == nil) != (s.GID == nil) {
 				s.UID, s.GID = u32p(vfcUIDs[r.Intn(len(vfcUIDs))]), u32p(vfcGIDs[r.Intn(len(vfcGIDs))])
+			}
+			if len(c.cred.Aux) > 0 && r.Intn(2) == 0 {
+				// chgrp to one of the caller's auxiliary groups, keeping the owner
+				s.UID, s.GID = u32p(c.cred.UID), u32p(c.cred.Aux[r.Intn(len(c.cred.Aux))])
 			}
 			c.setattr(c.pick(r), s)
 		default:
@@ -337,7 +366,12 @@ func vfcRunRO(t *testing.T, tr *vfTrace, h int, seed int64, steps int) *vfcClien
 func vfcRunROSwitch(t *testing.T, tr *vfTrace, h int, seed int64) {
 	fs := vfNewFS()
 	fs.vfPoke("/f", "F", []byte("data"), "", 0644)
-	cfg := vfcCfg{TTL: "min", Profile: "ro"}
+	variant := (h / 10) % 4 // 0: async export + UNSTABLE, 1: plain + FILE_SYNC, 2: async + FILE_SYNC, 3: plain + UNSTABLE
+	cfg := vfcCfg{TTL: "min", Profile: "ro", Async: variant%2 == 0}
+	stable := uint32(2)
+	if variant == 0 || variant == 3 {
+		stable = 0 // UNSTABLE
+	}
 	c := vfcNewClientOn(t, tr, cfg, h, seed, fs)
 	c.env.n.UpdateTuningOptions(func(tu *TuningOptions) { tu.Timeouts.DefaultTimeout = 80 * time.Millisecond })
 	c.lookup(c.hs[0], "f")
@@ -361,7 +395,7 @@ func vfcRunROSwitch(t *testing.T, tr *vfTrace, h int, seed int64) {
 	}
 	reqDone := make(chan struct{})
 	go func() {
-		c.env.Do(NFSPROC3_WRITE, vfArgsWrite(fh, 0, 2, []byte("new!")), vfRoot)
+		c.env.Do(NFSPROC3_WRITE, vfArgsWrite(fh, 0, stable, []byte("new!")), vfRoot)
 		close(reqDone)
 	}()
 	select {
